@@ -36,17 +36,24 @@ type Opts struct {
 }
 
 func craftPad(n int, marker []byte, k int) []byte {
-	b := padBytes(n, true)
 	if k > n {
 		k = n
 	}
 	if k >= len(marker) {
 		k = len(marker) - 1
 	}
-	for i := 0; i < k; i++ {
-		b[n-k+i] = marker[i]
+	for ; ; k-- {
+		b := padBytes(n, true)
+		for i := 0; i < k; i++ {
+			b[n-k+i] = marker[i]
+		}
+		// The pad must not *contain* the marker once the real marker follows it (a marker whose last bytes repeat
+		// its first ones would otherwise complete early - with probability 1/256 for a 7-byte prefix - and the peer
+		// would rightly synchronise there): the first occurrence in pad+marker has to be the real one.
+		if bytes.Index(append(append([]byte(nil), b...), marker...), marker) == n || k == 0 {
+			return b
+		}
 	}
-	return b
 }
 
 // Conn is the established stream.
